@@ -37,6 +37,9 @@ def make_config(seed, tier="quick"):
         settle_extra_s=1.0,
         max_boundaries=4000,
     )
+    # fault injection (separate stream): the application's on_message() raises now and then - the message was handed
+    # over all the same and its number is consumed
+    cfg["p_hook_raise"] = random.Random(seed ^ 0xC04E7).choice([0.0, 0.0, 0.0, 0.15, 0.4])
     return cfg
 
 
